@@ -242,8 +242,9 @@ class Mixed:
 
     def op_ext(self, h):
         g, k = self.pick_gk(self.keys + ["a", "b", "k0", "k1"], h)
+        layout = not any(isinstance(f, str) and f.startswith("/out/") for f in self.src.get(h, ()))
         self.add("ext %d %s %s" % (h, hx(g), hx(k)),
-                 lambda ev, root, h=h, g=g, k=k: [{"e": "ext", "h": h, "g": opt(g), "k": opt(k), "rc": ev["rc"], "line": ev.get("line", 0),
+                 lambda ev, root, h=h, g=g, k=k, layout=layout: [{"e": "ext", "h": h, "g": opt(g), "k": opt(k), "rc": ev["rc"], "line": ev.get("line", 0), "cmp_layout": layout,
                                                   "file": codes(self.rel(ev.get("file") or "", root)), "cb": codes(ev.get("cb") or ""), "ca": codes(ev.get("ca") or ""),
                                                   "vals": [codes(x) for x in (ev.get("vals") or []) if x != ""]}])
 
@@ -435,10 +436,55 @@ def quoted_scenarios(rnd, n):
     return hs
 
 
+def tagless_scenarios(rnd, n):
+    """Targeted histories for read-only calls on objects WITHOUT delimiter / comment tag (C10): an option object used as a plain
+    object is the base of a merge with a parsed file whose entries carry comments (the merge takes the tags of the base, the
+    comments of the override); then the read-only calls - write, getters, listings, another merge with it as input - each followed
+    by a full dump with the tags."""
+    hs = []
+    for i in range(n):
+        m = Mixed(rnd, 800 + i, ops={"read", "set", "write", "merge", "get", "listings"})
+        m.script.append("mkdir %s" % hx(m.R + "/out"))
+        m.conv.append(None)
+        lines = ["# about a", "a=1 # trailing", "[S]", "# about b", "b=2"][:rnd.randint(2, 5)]
+        m.files.add("/f1.conf")
+        m.seen_by["/f1.conf"] = [(None, "a"), ("S", "b")]
+        m.add("file %s %s" % (hx(m.R + "/f1.conf"), hx("\n".join(lines) + "\n")), None)
+        m.script.append("echo f")
+        m.conv.append(lambda ev, root, lines=lines: [{"e": "file", "path": codes("/f1.conf"), "lines": [codes(x) for x in lines]}])
+        m.op_newoptonly(1)
+        if rnd.random() < 0.5:
+            m.op_set(1)
+        m.add("readfile 2 %s x3d x23" % hx(m.R + "/f1.conf"), lambda ev, root: [{"e": "readfile", "h": 2, "path": codes("/f1.conf"), "delim": [61], "comment": [35], "rc": ev["rc"]}])
+        m.live.add(2)
+        m.src[2] = ["/f1.conf"]
+        m.op_merge(3, 1, 2)
+        m.op_dump(3)
+        for _ in range(rnd.randint(2, 6)):
+            x = rnd.random()
+            if x < 0.4:
+                m.op_write(3)
+            elif x < 0.6:
+                m.op_get(3)
+            elif x < 0.75:
+                m.op_keys(3)
+            elif x < 0.9:
+                m.op_merge(4, 3, 2); m.op_dump(4); m.op_free(4)
+            else:
+                m.op_write(1)
+            m.op_dump(3); m.op_dump(1)
+        for h in (1, 2, 3):
+            m.op_free(h)
+        hs.append(m)
+    return hs
+
+
 def run_mixed(exe, rnd, n, verdict, pid, nops=(10, 60), comments=False):
     hs = [Mixed(rnd, i, ops=OPS.get(pid), comments=comments, errloc=(pid in ("C13", "ALL")), bad_rate=0.4 if pid == "C13" else (0.06 if pid == "ALL" else 0.0)).build(rnd.randint(*nops)) for i in range(n)]
     if pid == "C07":
         hs += quoted_scenarios(rnd, max(40, n // 3))
+    if pid == "C10":
+        hs += tagless_scenarios(rnd, max(40, n // 3))
     res = core.run_cases(exe, [(i, h.script) for i, h in enumerate(hs)])
     events = []
     spans = []
